@@ -979,6 +979,9 @@ func irun(args []string) error {
 				}
 				w.Calls = g.Reannounce(w.Calls)
 			}
+			if i%6 == 4 {
+				w = g.ReannounceWorkload(w.ID)
+			}
 			uniqueSeqs(&w)
 			var buf bytes.Buffer
 			tr := wl.NewTrace()
